@@ -3,7 +3,9 @@
 //!     SymbolFile::from_bytes + walk_frame with the mock walker (word size W)
 //!  B|arch|ctxregs|valid|stackbase|stackhex|initaddr|initsize|init_text|d1addr|d1text|...
 //!     one walk_stack step through the real CfiStackWalker (arch = x86|amd64|arm64)
-//! answers: A: S|cfa=..|ra=..|regs=n=v,..|cleared=n,..   or N (walk failed) or E (file rejected)
+//!  M|W|lookup|regs|membase|memhex|REC|REC|...   REC = initaddr;initsize;init_text;d1addr;d1text;...
+//!     several INIT records (disjoint ranges, any file order) in one symbol file, mock walker
+//! answers: A, M: S|cfa=..|ra=..|regs=n=v,..|cleared=n,..   or N (walk failed) or E (file rejected)
 //!          B: S|valid=..|regs=..  or N
 #[path = "../cfi_common.rs"]
 mod cfi_common;
@@ -41,6 +43,29 @@ fn run(line: &str) -> String {
                 callee: parse_regs(f[5]).into_iter().collect(),
                 membase: f[6].parse().expect("membase"),
                 mem: unhex(f[7]),
+                cfa: None,
+                ra: None,
+                caller: Default::default(),
+                cleared: Default::default(),
+            };
+            mock_walk(&text, &mut mw)
+        }
+        "M" => {
+            let w: usize = f[1].parse().expect("W");
+            let lookup: u64 = f[2].parse().expect("lookup");
+            let mut text = String::from("MODULE Linux x86 ABCD1234 m\n");
+            for rec in &f[6..] {
+                let g: Vec<&str> = rec.split(';').collect();
+                text.push_str(&cfi_text(&g));
+            }
+            let mut mw = MockWalker {
+                w,
+                instruction: lookup,
+                has_gc: false,
+                gcps: 0,
+                callee: parse_regs(f[3]).into_iter().collect(),
+                membase: f[4].parse().expect("membase"),
+                mem: unhex(f[5]),
                 cfa: None,
                 ra: None,
                 caller: Default::default(),
